@@ -362,6 +362,7 @@ def check(prog, run):
     check_deferred_predicate(prog, run, "R12")
     c09.check_guarded_flatten(prog, run, "R13")
     check_non_null_after_completion(prog, run, "R14")
+    check_resolver_invocation(prog, run, "R15")
     from .. import sentinel
     sentinel.check(prog, run, "R10", ["py_gql.execution"], 6,
                    "an unexpected IndexError/KeyError from a resolver would be lost under one executor/runtime and surface under the others")
@@ -691,3 +692,53 @@ def check_non_null_after_completion(prog, run, rule_id):
                            "%s can return `%s` without passing the completed value to _handle_non_nullable_value (when %s): a null produced "
                            "by completion is not reported as `not nullable` under this executor" % (q, norm_stmt(st, 60), cond or "always"))
                 break
+
+
+def check_resolver_invocation(prog, run, rule_id):
+    """Both resolve_field implementations obtain the field's value the same way."""
+    from .. import boolx
+    from ..canon import Canon
+    r = run.rule(rule_id, "Executor.resolve_field and BlockingExecutor.resolve_field: on every execution that returns without having "
+                          "entered an exception handler, the value of the field comes from ONE call of the resolver returned by "
+                          "self.field_resolver(parent_type, field_definition), made with `**self.argument_values(field_definition, "
+                          "node)` (path values): a shortcut that skips argument coercion or the resolver (a fast path for the default "
+                          "resolver on dicts) gives the optimised executor other data and errors than the generic one", 2)
+    for modname, cname in ((EXE, "Executor"), (BEXE, "BlockingExecutor")):
+        f = prog.get_func(modname, "%s.resolve_field" % cname)
+        run.looked_at(f)
+        cn = Canon(f.node)
+        try:
+            _ev, exits = boolx.walk_under(f.node, lambda t: None)
+        except ValueError as e:
+            raise AnalysisError("C08.%s: %s" % (rule_id, e))
+        n_ok = n_bad = 0
+        for kind, st, env in exits:
+            if kind != "return" or env.get(boolx.HANDLERS):
+                continue
+            stmts = env.get(boolx.STMTS, ())
+            good = 0
+            for c in env.get(boolx.CALLS, ()):
+                ft = cn.text(c.func)
+                if not ft.replace(" ", "").startswith("self.field_resolver("):
+                    continue
+                holder = c
+                while holder is not None and not isinstance(holder, ast.stmt):
+                    holder = getattr(holder, "_parent", None)
+                penv = boolx.path_env(stmts, holder)
+                for k in c.keywords:
+                    if k.arg is None:
+                        v = boolx.path_subst(k.value, penv)
+                        if isinstance(v, ast.Call) and " ".join(ast.unparse(v.func).split()) == "self.argument_values":
+                            good += 1
+            if good == 1:
+                n_ok += 1
+            else:
+                n_bad += 1
+                run.report(r, "%s:%s.resolve_field:value-not-from-resolver" % (modname, cname), f.where(st) if st is not None else f.where(),
+                           "%s.resolve_field has an execution that returns a value without exactly one call of the field's resolver "
+                           "with the coerced arguments (%d such calls on it): argument coercion errors or the resolver itself are "
+                           "bypassed there" % (cname, good))
+                break
+        r.instance("%s.resolve_field: %d plain executions call the resolver with **argument_values" % (cname, n_ok))
+        if not n_ok and not n_bad:
+            raise AnalysisError("C08.%s: no plain execution of %s.resolve_field found" % (rule_id, cname))
